@@ -37,3 +37,10 @@ Section Interp.
     end.
   Definition interp_ (x : T) (xp fp : list T) : T := interp_pairs x (combine xp fp).
 End Interp.
+
+Section Polyval.
+  Context {O : Ops}.
+  (** np.polyval(p, x): y = 0; for c in p: y = y*x + c *)
+  Definition polyval_ (p : list (T O)) (x : T O) : T O :=
+    fold_left (fun acc c => add (mul acc x) c) p (ofZ 0).
+End Polyval.
